@@ -158,24 +158,47 @@ def parse_coq_value(out):
 
 
 def eval_shards(files, timeout=1500):
-    """coqc every shard in parallel; returns (values, errors)."""
+    """coqc every shard, at most 16 at a time and within a memory budget (LV_MEM_GB, default 10 GB: a shard of n MB of
+    case literals needs about 0.3 + 0.75 n GB in vm_compute; `vp run` limits a command to 16 GB); returns
+    (values, errors)."""
+    import threading
+    budget = float(os.environ.get("LV_MEM_GB", "10"))
+    cond = threading.Condition()
+    state = {"free": budget}
+
+    def cost(f):
+        return min(budget, 0.3 + 0.75 * os.path.getsize(f) / 1e6)
+
     def one(f):
         f = os.path.abspath(f)
-        rc, out = run(["coqc", "-noglob", "-Q", os.path.join(COQ, "theories"), "LV", f],
-                      cwd=os.path.dirname(f), timeout=timeout)
+        c = cost(f)
+        with cond:
+            while state["free"] < c:
+                cond.wait()
+            state["free"] -= c
+        try:
+            rc, out = run(["coqc", "-noglob", "-Q", os.path.join(COQ, "theories"), "LV", f],
+                          cwd=os.path.dirname(f), timeout=timeout)
+        finally:
+            with cond:
+                state["free"] += c
+                cond.notify_all()
         if rc != 0:
-            return f, None, out[-3000:]
+            return f, None, (out[-3000:] or "coqc exited with status %s and no output (killed: out of memory?)" % rc)
         try:
             return f, parse_coq_value(out), None
         except Exception as e:
             return f, None, "parse error: %s" % e
     vals, errs = [], []
+    # largest first, so that the big shards do not queue up behind the budget at the end
+    order = sorted(files, key=lambda f: -os.path.getsize(f))
     with ThreadPoolExecutor(max_workers=16) as ex:
-        for f, v, e in ex.map(one, files):
+        for f, v, e in ex.map(one, order):
             if e is not None:
                 errs.append((f, e))
             else:
                 vals.append((f, v))
+    vals.sort(key=lambda x: x[0])
     return vals, errs
 
 
@@ -202,7 +225,7 @@ def harness_run(sub, profile, tier, seed, outdir, extra=(), timeout=None):
         timeout = 600 if tier == "quick" else 3000
     os.makedirs(outdir, exist_ok=True)
     cmd = [harness_bin(profile), sub, "--tier", tier, "--seed", str(seed), "--out", outdir,
-           "--shards", "16" if tier == "quick" else "64"] + list(extra)
+           "--shards", "16" if tier == "quick" else "128"] + list(extra)
     return run(cmd, cwd=ROOT, timeout=timeout)
 
 
